@@ -11,6 +11,7 @@
 #include "vx_open.h"
 #include <xercesc/internal/IGXMLScanner.hpp>
 #include <xercesc/internal/SGXMLScanner.hpp>
+#include <xercesc/internal/DGXMLScanner.hpp>
 #include <xercesc/internal/XMLReader.hpp>
 #include <xercesc/framework/XMLBuffer.hpp>
 #include <xercesc/framework/XMLBufferMgr.hpp>
@@ -57,7 +58,14 @@ extern "C" void harness_nsdecl(void) {
   else if (vk == 1) { val[0] = c1; want[0] = c1; vl = 1; }
   else if (vk == 4) { val[0] = 0x9; want[0] = 0x20; vl = 1; }
   val[vl] = 0; want[vl] = 0;
+#ifdef SCANNER_DG
+  // the DTD scanner's variant takes (prefix, local part, already normalised value); its callers pass "" as local part for xmlns="..."
+  VX_ASSUME(vk != 4);
+  static const XMLCh xmlnsStr[] = { 'x','m','l','n','s',0 };
+  sc->updateNSMap(nk == 0 ? XMLUni::fgZeroLenString : xmlnsStr, nk == 0 ? XMLUni::fgZeroLenString : name + 6, val);
+#else
   sc->updateNSMap(name, val);
+#endif
   // ---- binding
   VX_ASSERT(vx_addprefix_n == 1, "the declaration binds its prefix exactly once (also for an empty value: un-declaration is a binding to the empty name)");
   VX_ASSERT(vx_pool_calls == 1 && eq(vx_pool_seen, want), "the namespace name interned is the normalised attribute value");
@@ -66,7 +74,9 @@ extern "C" void harness_nsdecl(void) {
     const XMLCh* wp = nk == 0 ? XMLUni::fgZeroLenString : name + 6;
     VX_ASSERT(eq(vx_addprefix_prefix, wp), "the bound prefix is the local part of the declaration name (empty for xmlns)");
   }
+#ifndef SCANNER_DG
   VX_ASSERT(vx_bids == 1 && vx_releases == 1, "the scratch buffer is returned to the buffer manager");
+#endif
   // ---- namespace constraints
   bool prefixed = nk != 0, isXml = nk == 2, isXmlns = nk == 3, empty = vl == 0, xmlUri = vk == 2, xmlnsUri = vk == 3;
   VX_ASSERT(seen(XMLErrs::NoUseOfxmlnsAsPrefix) == isXmlns, "the prefix xmlns must not be declared");
